@@ -173,6 +173,13 @@ pub fn apply_real<const N: usize>(g: &mut Sodg<N>, op: &Op) -> Result<Ret, Strin
             let (h, right) = fixed_real::<N>(*k);
             Ret::Merge(g.merge(&h, *left, right).map_err(|e| format!("{e:#}")))
         }
+        Op::MergeFail(k, left) => {
+            let (mut h, right) = fixed_real::<N>(*k);
+            let stray = fixed_tree(*k).size() + 1;
+            h.add(stray);
+            h.put(stray, &dat(3));
+            Ret::Merge(g.merge(&h, *left, right).map_err(|e| format!("{e:#}")))
+        }
     })
 }
 
